@@ -168,33 +168,6 @@ theorem xee_plain (c : Char) (hc : isEscapable c = true) : ∀ x ∈ xeeEscapeCh
     · exact hexGo_all (fun x => plain x = true) hexUpper_plain _ _ _ (by simp) x e
     · subst e; decide
 
-/-! ### `repr(bytes)` -/
-
-theorem bytesReprChar_plain (c : Char) (h : plain c = true) : bytesReprChar '\'' c = [c] := by
-  simp only [plain, Bool.and_eq_true, decide_eq_true_eq, bne_iff_ne, ne_eq] at h
-  obtain ⟨⟨⟨h1, h2⟩, h3⟩, h4⟩ := h
-  have t1 : c ≠ '\t' := by intro e; subst e; revert h1; decide
-  have t2 : c ≠ '\n' := by intro e; subst e; revert h1; decide
-  have t3 : c ≠ '\r' := by intro e; subst e; revert h1; decide
-  have t4 : ¬ (c.toNat < 32 ∨ c.toNat ≥ 127) := by omega
-  simp [bytesReprChar, h3, h4, t1, t2, t3, t4]
-
-theorem bytesRepr_plain (b : List Char) (h : ∀ c ∈ b, plain c = true) :
-    bytesRepr b = 'b' :: '\'' :: (b ++ ['\'']) := by
-  have hq : '\'' ∉ b := by
-    intro hm
-    have := h _ hm
-    revert this; decide
-  have hfm : b.flatMap (bytesReprChar '\'') = b := by
-    induction b with
-    | nil => rfl
-    | cons x xs ih =>
-      rw [List.flatMap_cons, bytesReprChar_plain x (h x List.mem_cons_self),
-        ih (fun c hc => h c (List.mem_cons_of_mem _ hc)) (fun hm => hq (List.mem_cons_of_mem _ hm))]
-      rfl
-  unfold bytesRepr
-  simp only [hq, false_and, if_false, hfm]
-
 /-! ### the handler -/
 
 theorem plain_ascii (c : Char) (h : plain c = true) : c.toNat < 128 := by
@@ -204,102 +177,79 @@ theorem plain_ascii (c : Char) (h : plain c = true) : c.toNat < 128 := by
 theorem escapable_of_nonascii (c : Char) (h : 128 ≤ c.toNat) : isEscapable c = true := by
   simp [isEscapable, xeeAsciiMax_eq]; right; omega
 
-/-- what one call of the handler contributes -/
+theorem unencodable_nonascii (enc : Char → Bool) (hascii : ∀ c : Char, c.toNat < 128 → enc c = true)
+    (c : Char) (hc : enc c = false) : 128 ≤ c.toNat := by
+  rcases Nat.lt_or_ge c.toNat 128 with hlt | hge
+  · rw [hascii c hlt] at hc; cases hc
+  · exact hge
+
+/-- the references of unencodable characters are ASCII, hence encodable -/
+theorem refs_encodable (enc : Char → Bool) (hascii : ∀ c : Char, c.toNat < 128 → enc c = true)
+    (l : List Char) (hl : ∀ c ∈ l, enc c = false) : ∀ x ∈ l.flatMap xeeEscapeChar, enc x = true := by
+  intro x hx
+  rw [List.mem_flatMap] at hx
+  obtain ⟨c, hc, hxc⟩ := hx
+  exact hascii x (plain_ascii x (xee_plain c
+    (escapable_of_nonascii c (unencodable_nonascii enc hascii c (hl c hc))) x hxc))
+
+/-- what one call of the handler contributes: the references of the run, as text the codec can encode -/
 theorem flush_spec (enc : Char → Bool) (hascii : ∀ c : Char, c.toNat < 128 → enc c = true)
     (run : List Char) (hrun : ∀ c ∈ run, enc c = false) :
-    ∃ a, flushRun enc run = some a ∧ (∀ x ∈ a, enc x = true) ∧
-      ∀ s o, Spec.Wrapped enc xeeEscapeChar s o → Spec.Wrapped enc xeeEscapeChar (run.reverse ++ s) (a ++ o) := by
+    flushRun enc run = some (run.reverse.flatMap xeeEscapeChar) := by
   by_cases hnil : run = []
-  · subst hnil
-    exact ⟨[], by simp [flushRun], by simp, fun s o h => by simpa using h⟩
-  · have hesc : ∀ c ∈ run.reverse, isEscapable c = true := by
-      intro c hc
-      have hf := hrun c (List.mem_reverse.mp hc)
-      apply escapable_of_nonascii
-      rcases Nat.lt_or_ge c.toNat 128 with hlt | hge
-      · rw [hascii c hlt] at hf; cases hf
-      · exact hge
-    have hplain : ∀ x ∈ xeeEscape run.reverse, plain x = true := by
-      intro x hx
-      unfold xeeEscape at hx
-      rw [List.mem_flatMap] at hx
-      obtain ⟨c, hc, hxc⟩ := hx
-      exact xee_plain c (hesc c hc) x hxc
-    have hrep : handlerReplace run.reverse = 'b' :: '\'' :: (run.reverse.flatMap xeeEscapeChar ++ ['\'']) := by
-      unfold handlerReplace
-      rw [bytesRepr_plain _ hplain]
-      rfl
-    have hallenc : ∀ x ∈ handlerReplace run.reverse, enc x = true := by
-      intro x hx
-      rw [hrep] at hx
-      apply hascii
-      simp only [List.mem_cons, List.mem_append, List.mem_nil_iff, or_false] at hx
-      rcases hx with e | e | e | e
-      · subst e; decide
-      · subst e; decide
-      · exact plain_ascii x (hplain x e)
-      · subst e; decide
-    refine ⟨handlerReplace run.reverse, ?_, hallenc, ?_⟩
-    · simp only [flushRun, hnil, if_false]
-      have : (handlerReplace run.reverse).all enc = true := List.all_eq_true.mpr hallenc
-      simp [this]
-    · intro s o h
-      rw [hrep]
-      have := Spec.Wrapped.run (enc := enc) (ref := xeeEscapeChar) (r := run.reverse) (s := s) (o := o)
-        (by simpa using hnil) (fun c hc => hrun c (List.mem_reverse.mp hc)) h
-      simpa using this
+  · subst hnil; simp [flushRun]
+  · have hall := refs_encodable enc hascii run.reverse (fun c hc => hrun c (List.mem_reverse.mp hc))
+    have : (handlerReplace run.reverse).all enc = true := by
+      rw [List.all_eq_true]; exact hall
+    simp only [flushRun, hnil, if_false, this, if_true]
+    rfl
 
-theorem handlerGo_wrapped (enc : Char → Bool) (hascii : ∀ c : Char, c.toNat < 128 → enc c = true) (g : Bool) :
+/-- the text every unencodable character of which is replaced by its reference -/
+def refOut (enc : Char → Bool) (s : List Char) : List Char :=
+  s.flatMap fun c => if enc c then [c] else xeeEscapeChar c
+
+theorem refOut_cons_pos (enc : Char → Bool) (c : Char) (cs : List Char) (h : enc c = true) :
+    refOut enc (c :: cs) = c :: refOut enc cs := by simp [refOut, h]
+
+theorem refOut_cons_neg (enc : Char → Bool) (c : Char) (cs : List Char) (h : enc c = false) :
+    refOut enc (c :: cs) = xeeEscapeChar c ++ refOut enc cs := by simp [refOut, h]
+
+theorem handlerGo_spec (enc : Char → Bool) (hascii : ∀ c : Char, c.toNat < 128 → enc c = true) (g : Bool) :
     ∀ (s run : List Char), (∀ c ∈ run, enc c = false) →
-      ∃ o, handlerGo enc g run s = some o ∧ (∀ x ∈ o, enc x = true) ∧
-        Spec.Wrapped enc xeeEscapeChar (run.reverse ++ s) o := by
+      handlerGo enc g run s = some (run.reverse.flatMap xeeEscapeChar ++ refOut enc s) := by
   intro s
   induction s with
   | nil =>
     intro run hrun
-    obtain ⟨a, ha, haenc, hw⟩ := flush_spec enc hascii run hrun
-    refine ⟨a, by simpa [handlerGo] using ha, haenc, ?_⟩
-    simpa using hw [] [] Spec.Wrapped.nil
+    simp [handlerGo, flush_spec enc hascii run hrun, refOut]
   | cons c cs ih =>
     intro run hrun
     by_cases hc : enc c = true
-    · obtain ⟨a, ha, haenc, hw⟩ := flush_spec enc hascii run hrun
-      obtain ⟨b, hb, hbenc, hwb⟩ := ih [] (by simp)
-      refine ⟨a ++ c :: b, by simp [handlerGo, hc, ha, hb], ?_, ?_⟩
-      · intro x hx
-        simp only [List.mem_append, List.mem_cons] at hx
-        rcases hx with e | e | e
-        · exact haenc x e
-        · subst e; exact hc
-        · exact hbenc x e
-      · exact hw (c :: cs) (c :: b) (Spec.Wrapped.pass hc (by simpa using hwb))
+    · simp [handlerGo, hc, flush_spec enc hascii run hrun, ih [] (by simp), refOut_cons_pos enc c cs hc]
     · have hc' : enc c = false := by simpa using hc
+      have hrun' : ∀ x ∈ c :: run, enc x = false := by
+        intro x hx
+        rcases List.mem_cons.mp hx with e | e
+        · subst e; exact hc'
+        · exact hrun x e
       cases g with
       | true =>
-        obtain ⟨o, ho, hoenc, hwo⟩ := ih (c :: run) (by
-          intro x hx
-          simp only [List.mem_cons] at hx
-          rcases hx with e | e
-          · subst e; exact hc'
-          · exact hrun x e)
-        refine ⟨o, by simp [handlerGo, hc', ho], hoenc, ?_⟩
-        simpa using hwo
+        simp [handlerGo, hc', ih (c :: run) hrun', refOut_cons_neg enc c cs hc', List.flatMap_append]
       | false =>
-        obtain ⟨a, ha, haenc, hw⟩ := flush_spec enc hascii (c :: run) (by
-          intro x hx
-          simp only [List.mem_cons] at hx
-          rcases hx with e | e
-          · subst e; exact hc'
-          · exact hrun x e)
-        obtain ⟨b, hb, hbenc, hwb⟩ := ih [] (by simp)
-        refine ⟨a ++ b, by simp [handlerGo, hc', ha, hb], ?_, ?_⟩
-        · intro x hx
-          simp only [List.mem_append] at hx
-          rcases hx with e | e
-          · exact haenc x e
-          · exact hbenc x e
-        · have := hw cs b (by simpa using hwb)
-          simpa using this
+        simp [handlerGo, hc', flush_spec enc hascii (c :: run) hrun', ih [] (by simp),
+          refOut_cons_neg enc c cs hc', List.flatMap_append]
+
+theorem refOut_encodable (enc : Char → Bool) (hascii : ∀ c : Char, c.toNat < 128 → enc c = true)
+    (s : List Char) : ∀ x ∈ refOut enc s, enc x = true := by
+  intro x hx
+  unfold refOut at hx
+  rw [List.mem_flatMap] at hx
+  obtain ⟨c, _, hxc⟩ := hx
+  by_cases hc : enc c = true
+  · simp [hc] at hxc; subst hxc; exact hc
+  · have hc' : enc c = false := by simpa using hc
+    simp only [hc', Bool.false_eq_true, if_false] at hxc
+    exact refs_encodable enc hascii [c] (by simpa using hc') x (by simpa using hxc)
 
 /-- nothing to replace: the text is returned as it is -/
 theorem handlerGo_all_encodable (enc : Char → Bool) (g : Bool) (s : List Char) (h : ∀ c ∈ s, enc c = true) :
